@@ -51,6 +51,7 @@ type Live struct {
 
 type delivered struct {
 	bytes []byte
+	alias []byte // the slice exactly as handed to the listener (not copied)
 	isNil bool
 	ts    int32
 	chunk int
@@ -107,7 +108,7 @@ func (s *Live) observe(env *core.Env, opts LiveOpts) (obs liveObs) {
 				}
 			}()
 			rd := drivers.NewReader(cfg, func(b []byte, ts int32) {
-				obs.got = append(obs.got, delivered{bytes: append([]byte{}, b...), isNil: b == nil, ts: ts, chunk: cur})
+				obs.got = append(obs.got, delivered{bytes: append([]byte{}, b...), alias: b, isNil: b == nil, ts: ts, chunk: cur})
 			})
 			for i, c := range chunks {
 				cur = i
@@ -143,7 +144,7 @@ func (s *Live) observe(env *core.Env, opts LiveOpts) (obs liveObs) {
 		}
 		o = append(o, midi.SysExBufferSize(opts.BufSize), midi.HandleError(func(error) { obs.errs++ }))
 		stop, err := midi.ListenTo(in, func(m midi.Message, ts int32) {
-			obs.got = append(obs.got, delivered{bytes: append([]byte{}, m...), isNil: m == nil, ts: ts, chunk: cur})
+			obs.got = append(obs.got, delivered{bytes: append([]byte{}, m...), alias: m, isNil: m == nil, ts: ts, chunk: cur})
 		}, o...)
 		if err != nil {
 			panic(err)
@@ -163,6 +164,17 @@ func (s *Live) observe(env *core.Env, opts LiveOpts) (obs liveObs) {
 		body(nil)
 	}
 	return obs
+}
+
+// retained checks that a message a listener kept is still what was delivered: the decoder
+// must not hand out memory it overwrites later (e.g. a reused sysex buffer).
+func (s *Live) retained(obs liveObs) []core.Violation {
+	for i, d := range obs.got {
+		if !bytes.Equal(d.alias, d.bytes) {
+			return []core.Violation{core.V("delivery", "mutated-after-delivery:"+msgClass(d.bytes), "message %d was delivered as % X; the slice the listener received reads % X after later messages arrived (stream %s chunks %v)", i, d.bytes, d.alias, core.Trunc(core.HexStr(s.Stream), 300), core.Trunc(fmt.Sprint(s.Chunks), 100))}
+		}
+	}
+	return nil
 }
 
 // matches compares a delivered message with the expected bytes. At the raw reader level a
@@ -811,6 +823,9 @@ func (s *Live) runC04(env *core.Env, st *core.Stats) (vs []core.Violation) {
 	obs := s.observe(env, s.Opts)
 	if obs.panicked {
 		return []core.Violation{core.V("panic", panicKey(obs.panicMsg), "decoder panicked: %s (stream % X chunks %v)", obs.panicMsg, []byte(s.Stream), s.Chunks)}
+	}
+	if v := s.retained(obs); v != nil {
+		return v
 	}
 	return s.compare(obs.got, want, "delivery")
 }
